@@ -1,0 +1,147 @@
+//go:build verif
+
+// Contracts for (*Transaction).GetField (package corazawaf), checked by /verif/govc (comment-only file; no code).
+//
+// GetField turns one rule target (variable, string key / regex key, '&' count, exclusion list) into the list of match
+// data the operator runs on (C01: "a rule examines exactly the values its targets select, minus exactly the excluded
+// ones"; C17: a run-time target exclusion is one more entry of rv.Exceptions and behaves like the rewritten rule;
+// C04: nothing below depends on the order in which the lookup lists the entries, so every clause holds for every
+// iteration order of the underlying Go maps).
+package corazawaf
+
+// ---------------------------------------------------------------- what an exclusion covers (from the property)
+//
+// An exclusion (KeyStr, KeyRx) drops exactly the entries the target (KeyStr, KeyRx) would select from the same
+// collection: with a regex the entries whose key -- as the collection stores it -- matches, with a string key the
+// entries under that key "case handling as the collection defines", with neither every entry. (ruleVariableException:
+// "If KeyRx is not nil, KeyStr is ignored".)
+
+// gfFolds(col): col has case-insensitive keys -- every collection except a map-backed one whose map is case sensitive
+// (ARGS_GET, ARGS_POST, ARGS_PATH and their *_NAMES under the build tag coraza.rule.case_sensitive_args_keys)
+//@ define gfFolds(col collection.Collection) bool :=
+//@     !(typeof(col) == tag("*collections.NamedCollection") && payload(col, "*collections.NamedCollection").Map.isCaseSensitive) &&
+//@     !(typeof(col) == tag("*collections.NamedCollectionNames") && payload(col, "*collections.NamedCollectionNames").collection.Map.isCaseSensitive) &&
+//@     !(typeof(col) == tag("*collections.Map") && payload(col, "*collections.Map").isCaseSensitive)
+// gfFold(col, k): the key under which collection col stores / looks up the name k (normKey of internal/collections)
+//@ define gfFold(col collection.Collection, k string) string := ite(gfFolds(col), lower(k), k)
+
+// exclusion e is a string-key exclusion that covers the entry with key k / a regex exclusion that covers it.
+// (The exclusion list is read as it was handed in -- old(...) -- GetField does not write it: `exclusionsKept`.)
+//@ define gfStrHit(col collection.Collection, exs []ruleVariableException, e int, k string) bool :=
+//@     old(exs[e].KeyRx) == nil && (old(exs[e].KeyStr) == "" || gfFold(col, old(exs[e].KeyStr)) == gfFold(col, k))
+//@ define gfRxHit(col collection.Collection, exs []ruleVariableException, e int, k string) bool :=
+//@     old(exs[e].KeyRx) != nil && rxMatch(old(exs[e].KeyRx), gfFold(col, k))
+//@ define gfExcluded(col collection.Collection, exs []ruleVariableException, k string) bool :=
+//@     exists e int :: 0 <= e && e < len(exs) && (gfStrHit(col, exs, e, k) || gfRxHit(col, exs, e, k))
+//@ define gfStrOnly(exs []ruleVariableException) bool := forall e int :: 0 <= e && e < len(exs) ==> old(exs[e].KeyRx) == nil
+// gfStray(exs, k): some regex exclusion carries along a KeyStr ("/rx/" when it comes from the configuration, "" when it
+// comes from ctl) that is, up to case, the name k itself
+//@ define gfStray(exs []ruleVariableException, k string) bool :=
+//@     exists e int :: 0 <= e && e < len(exs) && old(exs[e].KeyRx) != nil && lower(old(exs[e].KeyStr)) == lower(k)
+
+// (proof scaffolding, read off the code) the test the filtering loop applies to exclusion e and the lower-cased key lk:
+// a regex exclusion is decided by its regex alone, one without key covers everything, any other names one key
+//@ define gfCodeHit(exs []ruleVariableException, e int, lk string) bool :=
+//@     ite(old(exs[e].KeyRx) != nil, rxMatch(old(exs[e].KeyRx), lk), old(exs[e].KeyStr) == "" || lower(old(exs[e].KeyStr)) == lk)
+
+// gfKeyed(rv): the target has a key, so the lookup goes through collection.Keyed (or yields nothing)
+//@ define gfKeyed(rv ruleVariableParams) bool := rv.KeyRx != nil || rv.KeyStr != ""
+// Every lookup (Collection.FindAll: /verif/specs/actions.spec; Keyed.FindRegex / FindString: /verif/specs/getfield.spec)
+// returns nil or a freshly allocated slice whose content at return time is named gfSnap(base, off + i), i < gfSelLen(base).
+
+//@ func (*Transaction).GetField props C01,C17,C04,C07
+//@   requires logger: !isnil(tx.debugLogger)
+// ---- (a) selection: a regex key is looked up by regex, a string key by string, no key selects everything; the
+//      lookup is made on the collection of the target's variable with exactly the target's key
+//@   at call "m.FindRegex(rv.KeyRx)" requires byRegex: rv.KeyRx != nil && arg(0) == rv.KeyRx && m == col
+//@   at call "m.FindString(rv.KeyStr)" requires byString: rv.KeyRx == nil && rv.KeyStr != "" && arg(0) == rv.KeyStr && m == col
+//@   at call "col.FindAll()" requires allEntries: rv.KeyRx == nil && rv.KeyStr == ""
+// ---- (d) the filter writes only into the slice the lookup has just allocated, never into storage of the collection
+//@   at "matches[filteredCount] = c" requires writesOwnSlice: fresh(matches)
+//@   ensures ownSlice: len(result) == 0 || fresh(result)
+// ... and what it returns are data the lookup (or GetField itself, for a count) has just allocated: nothing a later
+// call on the collection could overwrite, nothing whose rewriting by the caller could reach the collection
+// (stated for keyed targets and counts: the assumed contract of Collection.FindAll in actions.spec says nothing about the
+// data behind the elements)
+//@   ensures ownData: gfKeyed(rv) || rv.Count ==> (forall j int :: 0 <= j && j < len(result) ==>
+//@       typeof(result[j]) == tag("*corazarules.MatchData") && fresh(payload(result[j], "*corazarules.MatchData")))
+// ---- (c) '&VAR': one datum (variable, key of the target, decimal number of selected, non-excluded entries)
+//@   at call "strconv.Itoa(count)" requires countsKept: arg(0) == filteredCount
+//@   at call "strconv.Itoa(count)" requires countsAllWithoutExclusions: len(rv.Exceptions) == 0 ==> arg(0) == len(matches)
+//@   ensures countDatum: rv.Count ==> len(result) == 1 && typeof(result[0]) == tag("*corazarules.MatchData") && fresh(payload(result[0], "*corazarules.MatchData")) &&
+//@       payload(result[0], "*corazarules.MatchData").Variable_ == rv.Variable && payload(result[0], "*corazarules.MatchData").Key_ == rv.KeyStr &&
+//@       isnum(payload(result[0], "*corazarules.MatchData").Value_) && 0 <= atoi(payload(result[0], "*corazarules.MatchData").Value_)
+// ---- (b) what is returned, in terms of what the lookup selected (snapshot gfSnap / gfSelLen of the result's array)
+//@   ensures exclusionsKept: forall e int :: 0 <= e && e < len(rv.Exceptions) ==> rv.Exceptions[e].KeyRx == old(rv.Exceptions[e].KeyRx) && rv.Exceptions[e].KeyStr == old(rv.Exceptions[e].KeyStr)
+//@   ensures realData: forall j int :: 0 <= j && j < len(result) ==> !isnil(result[j])
+//@   ensures notMore: !rv.Count ==> len(result) == 0 || len(result) <= gfSelLen(base(result))
+// (that every returned datum is one of the selected ones is carried by the per-entry steps `keep` / `frame` and the
+// invariant `tailIntact`: the only write of an iteration stores the entry under examination, which is still what the
+// lookup returned. The quantified form "forall j exists i" is not kept as an invariant: together with the source-side
+// "forall i exists j" it sends the solvers into a matching loop.)
+// without exclusions the result is the selection itself
+//@   ensures noExclusions: !rv.Count && len(rv.Exceptions) == 0 ==> (len(result) > 0 ==> len(result) == gfSelLen(base(result))) &&
+//@       (forall j int :: 0 <= j && j < len(result) ==> result[j] == gfSnap(base(result), off(result) + j))
+// a whole-variable exclusion (no key, no regex) leaves nothing
+//@   ensures wholeVariableExcluded: !rv.Count && (exists e int :: 0 <= e && e < len(rv.Exceptions) && old(rv.Exceptions[e].KeyRx) == nil && old(rv.Exceptions[e].KeyStr) == "") ==> len(result) == 0
+//@   loop 1
+//@     invariant bounds: -1 <= rangeindex && rangeindex < len(matches) && 0 <= filteredCount && filteredCount <= rangeindex + 1
+//@     invariant exclusionsKept: forall e int :: 0 <= e && e < len(rv.Exceptions) ==> rv.Exceptions[e].KeyRx == old(rv.Exceptions[e].KeyRx) && rv.Exceptions[e].KeyStr == old(rv.Exceptions[e].KeyStr)
+//@     invariant realData: forall k int :: 0 <= k && k < len(matches) ==> !isnil(matches[k])
+//@     invariant ownData: gfKeyed(rv) ==> (forall k int :: 0 <= k && k < len(matches) ==>
+//@         typeof(matches[k]) == tag("*corazarules.MatchData") && fresh(payload(matches[k], "*corazarules.MatchData")))
+//@     invariant ownSlice: isnil(matches) || (fresh(matches) && len(matches) == gfSelLen(base(matches)))
+// the part of the slice that has not been examined yet is still what the lookup returned: compaction never
+// overwrites an entry before it has been looked at (no skipped neighbour)
+//@     invariant tailIntact: (forall k int :: rangeindex < k && k < len(matches) ==> matches[k] == gfSnap(base(matches), off(matches) + k))
+//@     invariant nothingDroppedWithoutExclusions: len(rv.Exceptions) == 0 ==> filteredCount == rangeindex + 1
+//@     invariant noExclusions: len(rv.Exceptions) == 0 ==> (forall j int :: 0 <= j && j < filteredCount ==> matches[j] == gfSnap(base(matches), off(matches) + j))
+//@     invariant wholeVariableExcluded: (exists e int :: 0 <= e && e < len(rv.Exceptions) && old(rv.Exceptions[e].KeyRx) == nil && old(rv.Exceptions[e].KeyStr) == "") ==> filteredCount == 0
+// RESULT side (proof scaffolding in the code's own terms): the loop's test let every kept entry through; the
+// property-level statements are the `after` clauses below
+//@     invariant keptPassed: forall j int, e int :: 0 <= j && j < filteredCount && 0 <= e && e < len(rv.Exceptions) ==> !gfCodeHit(rv.Exceptions, e, lower(mdKey(matches[j])))
+// SOURCE side (proof scaffolding in the code's own terms): every examined entry that the loop's test lets through is in
+// the compacted prefix; the property-level statements are the `after` clauses below
+//@     invariant passedAreKept: forall i int :: 0 <= i && i <= rangeindex &&
+//@         (forall e int :: 0 <= e && e < len(rv.Exceptions) ==> !gfCodeHit(rv.Exceptions, e, lower(mdKey(gfSnap(base(matches), off(matches) + i))))) ==>
+//@         (exists j int :: 0 <= j && j < filteredCount && matches[j] == gfSnap(base(matches), off(matches) + i))
+// ---- per entry c (every iteration = every selected entry): dropped exactly when an exclusion covers it
+// kept entries are appended to the compacted prefix, dropped ones change nothing, nothing else is written
+//@     step keep: !isException ==> filteredCount == prev(filteredCount) + 1 && matches[prev(filteredCount)] == c
+//@     step drop: isException ==> filteredCount == prev(filteredCount)
+//@     step frame: forall k int :: 0 <= k && k < len(matches) && (isException || k != prev(filteredCount)) ==> matches[k] == prev(matches[k])
+//@     step strExclusionApplies: (exists e int :: 0 <= e && e < len(rv.Exceptions) && gfStrHit(col, rv.Exceptions, e, mdKey(c))) ==> isException
+//@     step rxExclusionAppliesFolded: gfFolds(col) && (exists e int :: 0 <= e && e < len(rv.Exceptions) && gfRxHit(col, rv.Exceptions, e, mdKey(c))) ==> isException
+//@     step onlyCoveredDroppedFoldedStr: gfFolds(col) && gfStrOnly(rv.Exceptions) && isException ==> gfExcluded(col, rv.Exceptions, mdKey(c))
+// ... and with regex exclusions too, as long as the KeyStr that a regex exclusion carries along ("/rx/" when it comes
+// from the configuration, "" when it comes from ctl) is not itself the entry's name
+//@     step onlyCoveredDroppedFoldedNoStrayKey: gfFolds(col) && isException && !gfStray(rv.Exceptions, mdKey(c)) ==> gfExcluded(col, rv.Exceptions, mdKey(c))
+// the same three statements without the restriction to case-folding collections / string-key exclusions:
+//@     step rxExclusionApplies: (exists e int :: 0 <= e && e < len(rv.Exceptions) && gfRxHit(col, rv.Exceptions, e, mdKey(c))) ==> isException
+//@     step onlyCoveredDroppedFolded: gfFolds(col) && isException ==> gfExcluded(col, rv.Exceptions, mdKey(c))
+//@     step onlyCoveredDroppedStr: gfStrOnly(rv.Exceptions) && isException ==> gfExcluded(col, rv.Exceptions, mdKey(c))
+// RESULT side, for EVERY kept entry: no string-key exclusion covers it; no regex exclusion covers it (case-folding
+// collections / in general)
+//@     after keptNoStrExclusion: forall j int, e int :: 0 <= j && j < filteredCount && 0 <= e && e < len(rv.Exceptions) ==> !gfStrHit(col, rv.Exceptions, e, mdKey(matches[j]))
+//@     after keptNoRxExclusionFolded: gfFolds(col) ==> (forall j int, e int :: 0 <= j && j < filteredCount && 0 <= e && e < len(rv.Exceptions) ==> !gfRxHit(col, rv.Exceptions, e, mdKey(matches[j])))
+//@     after nothingDroppedWithoutExclusions: len(rv.Exceptions) == 0 ==> filteredCount == len(matches)
+//@     after keptNoRxExclusion: forall j int, e int :: 0 <= j && j < filteredCount && 0 <= e && e < len(rv.Exceptions) ==> !gfRxHit(col, rv.Exceptions, e, mdKey(matches[j]))
+// SOURCE side, for EVERY selected entry: if no exclusion covers it, it is in the result --
+// for case-folding collections and string-key exclusions,
+//@     after uncoveredKeptFoldedStr: gfFolds(col) && gfStrOnly(rv.Exceptions) ==> (forall i int :: 0 <= i && i < len(matches) &&
+//@         !gfExcluded(col, rv.Exceptions, mdKey(gfSnap(base(matches), off(matches) + i))) ==> (exists j int :: 0 <= j && j < filteredCount && matches[j] == gfSnap(base(matches), off(matches) + i)))
+// for case-folding collections and any exclusions whose carried-along KeyStr is not the entry's name,
+//@     after uncoveredKeptFoldedNoStrayKey: gfFolds(col) ==> (forall i int :: 0 <= i && i < len(matches) &&
+//@         !gfStray(rv.Exceptions, mdKey(gfSnap(base(matches), off(matches) + i))) &&
+//@         !gfExcluded(col, rv.Exceptions, mdKey(gfSnap(base(matches), off(matches) + i))) ==> (exists j int :: 0 <= j && j < filteredCount && matches[j] == gfSnap(base(matches), off(matches) + i)))
+// for case-folding collections and any exclusions,
+//@     after uncoveredKeptFolded: gfFolds(col) ==> (forall i int :: 0 <= i && i < len(matches) &&
+//@         !gfExcluded(col, rv.Exceptions, mdKey(gfSnap(base(matches), off(matches) + i))) ==> (exists j int :: 0 <= j && j < filteredCount && matches[j] == gfSnap(base(matches), off(matches) + i)))
+// and in general (the property; open only because of the case-sensitive ARGS_* build, see the report):
+//@     after uncoveredKept: forall i int :: 0 <= i && i < len(matches) &&
+//@         !gfExcluded(col, rv.Exceptions, mdKey(gfSnap(base(matches), off(matches) + i))) ==> (exists j int :: 0 <= j && j < filteredCount && matches[j] == gfSnap(base(matches), off(matches) + i))
+//@   loop 2
+//@     invariant -1 <= rangeindex && rangeindex < len(rv.Exceptions)
+//@     invariant exclusionsKept: forall e int :: 0 <= e && e < len(rv.Exceptions) ==> rv.Exceptions[e].KeyRx == old(rv.Exceptions[e].KeyRx) && rv.Exceptions[e].KeyStr == old(rv.Exceptions[e].KeyStr)
+//@     invariant noneSoFar: forall e int :: 0 <= e && e <= rangeindex ==> !gfCodeHit(rv.Exceptions, e, lkey)
+//@     exits hit: gfCodeHit(rv.Exceptions, rangeindex + 1, lkey)
